@@ -160,9 +160,16 @@ def build_flat(spec):
         if i >= nch:
             continue
         ln = min(chunk, size - i * chunk)
-        p = Pat(key_for(layer, i) ^ 0xF1A7, ln)
-        fh.put(i * chunk, p)
-        lay.put(i * chunk, p)
+        skip = 0
+        if i == 0 and spec.get("head"):
+            head = Lit(spec["head"].encode("latin-1")[:ln])  # guest data that starts like a text file
+            fh.put(0, head)
+            lay.put(0, head)
+            skip = head.length
+        if ln > skip:
+            p = Pat(key_for(layer, i) ^ 0xF1A7, ln - skip, base=skip)
+            fh.put(i * chunk + skip, p)
+            lay.put(i * chunk + skip, p)
     return fh, lay, {"size": size, "sector_count": cap, "metadata_bytes": 0}
 
 
